@@ -329,6 +329,48 @@ func runC16(c *Ctx) {
 		c.NoReach("R16.6", "ctx done after Wait ⇒ unlock and return", del, p.EdgeSuccs(del, "eq(select#0,const:0)"), 1, OrInstr(isStreamRead, p.CallTo("(*sync.Cond).Wait", gSend)), CutSpec{})
 	}
 
+	// ---------- R16.11 a crashed run leaves no tracker behind
+	c.Rule("R16.11", "E7", "rruntime.runOnce: the output tracker is dropped by a deferred function, i.e. also when Controller.Run panics — StartTrackingOutputs refuses (panics) while a tracker is set, so a tracker surviving one panic makes every restarted run panic again and the controller never gets a fresh reconcile", 1)
+
+	if f := p.Method(pkgRRuntime, "Adapter", "runOnce"); c.NeedFunc("R16.11", f, "rruntime.Adapter.runOnce") {
+		reset := StoreToField("Adapter", "outputTracker")
+		deferred := false
+
+		for _, in := range Find(f, func(in ssa.Instruction) bool { _, ok := in.(*ssa.Defer); return ok }) {
+			if callee := StaticOrClosureCalleeOf(in.(*ssa.Defer)); callee != nil {
+				seen := map[*ssa.Function]bool{}
+
+				var walk func(g *ssa.Function, depth int) bool
+
+				walk = func(g *ssa.Function, depth int) bool {
+					if g == nil || seen[g] || depth > 2 {
+						return false
+					}
+
+					seen[g] = true
+
+					if len(Find(g, reset)) > 0 {
+						return true
+					}
+
+					for _, ci := range Find(g, func(in ssa.Instruction) bool { _, ok := in.(*ssa.Call); return ok }) {
+						if h := ci.(*ssa.Call).Call.StaticCallee(); h != nil && pkgOfFunc(h) == pkgOfFunc(f) && walk(h, depth+1) {
+							return true
+						}
+					}
+
+					return false
+				}
+
+				if walk(callee, 0) {
+					deferred = true
+				}
+			}
+		}
+
+		c.Check(deferred, "R16.11", FuncName(f)+" :: outputTracker is reset in a deferred function", fpos(f), "yes", "no deferred function of runOnce resets Adapter.outputTracker: a panic in Controller.Run leaves the tracker set and every later StartTrackingOutputs panics")
+	}
+
 	// ---------- R16.8 a pooled tracker map has one owner
 	c.Rule("R16.8", "E1", "rruntime output tracker: the map goes back to the process-wide pool only together with the adapter forgetting it (Put is followed by outputTracker = nil before the function returns, and is never deferred): a fault in one controller cannot make two controllers share one tracking map", 1)
 
